@@ -9,7 +9,7 @@ use crate::refmodel::rlp;
 
 /// The public key (scheme, bytes) a record of family `fam` with these pairs is verified against.
 pub fn record_key(fam: FamId, pairs: &[(Vec<u8>, Vec<u8>)]) -> Option<(Scheme, Vec<u8>)> {
-    if fam == FamId::Tiny {
+    if matches!(fam, FamId::Tiny | FamId::Mid) {
         // (the Scheme tag is meaningless for the toy scheme; callers use `node_id_for` / `independent_verify`)
         let raw = &pairs.iter().find(|(k, _)| k == b"t")?.1;
         return match rlp::decode_exact(raw) {
@@ -23,7 +23,7 @@ pub fn record_key(fam: FamId, pairs: &[(Vec<u8>, Vec<u8>)]) -> Option<(Scheme, V
 
 /// keccak256 of the uncompressed form of the key, per family
 pub fn node_id_for(fam: FamId, scheme: Scheme, pk: &[u8]) -> Option<[u8; 32]> {
-    if fam == FamId::Tiny {
+    if matches!(fam, FamId::Tiny | FamId::Mid) {
         return if pk.len() == 4 { Some(crate::refmodel::keccak::keccak256(pk)) } else { None };
     }
     node_id_of(scheme, pk)
@@ -35,7 +35,7 @@ pub fn independent_verify(fam: FamId, s: &Snap) -> Verdict {
         Some(x) => x,
         None => return Verdict::Invalid,
     };
-    if fam == FamId::Tiny {
+    if matches!(fam, FamId::Tiny | FamId::Mid) {
         let c = record::content_from_fields(s.seq, &s.pairs);
         return keys::tiny_verify(&pk, &c, &s.sig);
     }
@@ -175,4 +175,38 @@ pub fn known_combined_state(fam: FamId, s: &Snap) -> bool {
         Some(pk) if crypto::ed_pk_valid(&pk) => record::verify_fields(Scheme::Ed, &pk, s.seq, &s.pairs, &s.sig) == Verdict::Valid,
         _ => false,
     }
+}
+
+/// What a cold observation (after a blind run) must satisfy, and how it must relate to the state the
+/// fully observed run of the same history had at that step.
+pub fn cold_consistent(cold: &crate::exec::Cold, observed: Option<&Snap>) -> Result<(), String> {
+    let s = &cold.snap;
+    let want = record::record_from_fields(&s.sig, s.seq, &s.pairs);
+    if cold.enc != want {
+        return Err(format!(
+            "without intermediate observation, encode() is not the encoding of the fields the record reports ({} vs {} bytes; seq {}, {} pairs)",
+            cold.enc.len(),
+            want.len(),
+            s.seq,
+            s.pairs.len()
+        ));
+    }
+    if cold.size != cold.enc.len() {
+        return Err(format!("without intermediate observation, size() = {} but the encoding has {} bytes", cold.size, cold.enc.len()));
+    }
+    if cold.text != format!("enr:{}", crate::refmodel::b64::encode(&cold.enc)) {
+        return Err("without intermediate observation, to_base64() is not the text of the record's encoding".into());
+    }
+    if s.enc != cold.enc {
+        return Err("the encoding changed between two consecutive observations".into());
+    }
+    if let Some(o) = observed {
+        if o.seq != s.seq || o.pairs != s.pairs || o.node_id != s.node_id || o.pk != s.pk {
+            return Err("the record differs from the one the fully observed run of the same history holds at this step".into());
+        }
+        if o.enc.len() != cold.enc.len() && o.sig.len() == s.sig.len() {
+            return Err("the encoding length differs from the fully observed run although the fields agree".into());
+        }
+    }
+    Ok(())
 }
